@@ -34,6 +34,8 @@ theorem groupBy_partition (hash : Nat → Nat) (eqv : Nat → Nat → Bool) (kr 
 -- `maxLoadFactor`, `growthFactor`, `calculateInitialSizeExp`, `table.insertEntry`, `table.grow`, `groupIndex`, `GroupBy`, `equals`, `table.hash`, `newTable`:
 -- regenerated as `Gen.grouperFns` (grpast.go, the constants are folded into the terms), `C04GrouperCanon.gen_grouper_canon` + `C04GrouperGen.gen_grouper_semantics`.
 -- QFrame.GroupBy, Grouper.QFrames and the glue of Aggregate are regenerated in `Gen.groupByAst` / `qframesAst` / `aggregateGlueAst` (C04GlueGen, C04GlueLink.gen_groupby_partition); nothing of C04 is compared as text any more.
+-- The helpers `QFrame.comparables` / `QFrame.orders` that build the key comparables are also regenerated on their own, statement by statement, in `Gen.comparablesAst` /
+-- `Gen.ordersAst` (sortgast.go): `C03SortGlueGen.gen_comparables_semantics` / `gen_comparables_of_names` (one comparable per named column, in order, the SAME Null flag for all).
 theorem tie : Tie.sameAll [] = true := by decide
 
 /-- The load factor and growth factor of the table in today's source: the probe terminates because the table is
